@@ -689,20 +689,22 @@ impl File {
             return Ok(false);
         }
         let newstamp = self.read_stamp(v)?;
-        if self.is_generated
-            && (!self.is_failed(v) || !newstamp.is_missing())
-            && !self.is_override
-            && self.stamp.as_ref() == Some(&newstamp)
-        {
-            // Target is as we left it.
+        if newstamp.is_missing() {
+            // Nothing there.  It's not usefully a source; whether it is (still) a target is
+            // for is_target() to say.
             return Ok(false);
         }
-        if (!self.is_generated || self.stamp.as_ref() != Some(&newstamp)) && newstamp.is_missing() {
-            // Target has gone missing after the last build.
-            // It's not usefully a source *or* a target.
-            return Ok(false);
+        if !self.is_generated || self.is_override {
+            return Ok(true);
         }
-        Ok(true)
+        // One of ours.  It has become a source only if somebody modified it by hand -- the
+        // same test the builder applies before it refuses to overwrite a file.  Any other
+        // difference (no stamp at all: a build that was interrupted; only the mode, owner or
+        // inode) leaves it a target, which the next build will simply redo.
+        Ok(match self.stamp.as_ref() {
+            Some(oldstamp) => Stamp::detect_override(oldstamp, &newstamp),
+            None => false,
+        })
     }
 
     /// Reports if this object represents a target (not a source).
